@@ -303,6 +303,9 @@ func runC05(e *Engine, r *Report, tier string) {
 					}
 					okArgs := 0
 					for _, a := range c.Common().Args {
+						if stripConv(a) == ssa.Value(tx) {
+							return true // the record itself is handed over: fee and id are both its own
+						}
 						res := e.Slice(a, SliceOpts{MaxDepth: 5}, func(x ssa.Value) Verdict {
 							if x == ssa.Value(tx) {
 								return Accept
